@@ -167,7 +167,11 @@ Definition gc_record (cf : cfg) (hf : bytes -> N) (begin src : nat) (st : gcst) 
     let newp := mkPos dst noff in
     let b3 := match found with
               | Some _ => match tree_get_slot b2 h with
-                          | Some s => tree_put b2 h (mkSlot newp (s_ver s) (s_vh s))
+                          | Some s =>
+                              (* UpdateHtreePos: with the repair of the repoint race (Consts.gc_repoint_conditional) the slot is
+                                 moved only if it still points at the relocated record *)
+                              if gc_repoint_conditional && negb (pos_eqb (s_pos s) oldp) then b2
+                              else tree_put b2 h (mkSlot newp (s_ver s) (s_vh s))
                           | None => b2
                           end
               | None => b2
